@@ -64,8 +64,8 @@ CLAIMS['C03'].update(
     kernel='memory-safety/UB obligations of every unit + fixed-buffer conversions, URI dot-segment removal, xsl:number count arrays, XPath token-queue cursor, ICU object caches',
     text='Component-level proof: bounds, pointer, overflow, conversion, division and shift obligations of every extracted function, for all inputs; the fixed-size buffer conversions the property singles out; the token-queue cursor of the XPath parser never leaves the queue (also on the error path); eviction in the ICU DecimalFormat/Collator caches destroys exactly the object of the entry that leaves. Exception-to-status mapping, leaks in general, the parsers and termination outside the listed loops are not covered.')
 CLAIMS['C04'].update(
-    kernel='UTF-8 and UTF-16 writers, surrogate decoding, escaping and CDATA state machines of FormatterToXMLUnicode, XalanOutputStream::write buffering and multi-pass transcoding loop, xsl:comment content repair (loop contract), raw-text flag of XalanXMLSerializerBase',
-    text=CLAIMS['C04']['text'].replace(' Serializer selection,', ' XalanOutputStream::write keeps the order of buffered and direct blocks and never overfills its buffer; XalanOutputStream::transcode continues every pass where the previous one stopped and appends its bytes inside the destination; xsl:comment content reaches the serializer without "--" or a trailing "-" (loop contract on the real repair loop, strings of up to 1024 units; that nothing but spaces is added stays a bounded stand-in, <= 7 units); the raw-text flag is armed by the marker processing instruction only and used up by the text event that follows, characters() or cdata(). Serializer selection,'))
+    kernel='UTF-8 and UTF-16 writers, surrogate decoding, escaping and CDATA state machines of FormatterToXMLUnicode, XalanOutputStream::write buffering and multi-pass transcoding loop, xsl:comment and xsl:processing-instruction content repair (loop contracts), raw-text flag of XalanXMLSerializerBase',
+    text=CLAIMS['C04']['text'].replace(' Serializer selection,', ' XalanOutputStream::write keeps the order of buffered and direct blocks and never overfills its buffer; XalanOutputStream::transcode continues every pass where the previous one stopped and appends its bytes inside the destination; xsl:comment content reaches the serializer without "--" or a trailing "-" (loop contract on the real repair loop, strings of up to 1024 units; that nothing but spaces is added stays a bounded stand-in, <= 7 units) and xsl:processing-instruction data without "?>" (same kind of loop contract); the raw-text flag is armed by the marker processing instruction only and used up by the text event that follows, characters() or cdata(). Serializer selection,'))
 CLAIMS['C06'].update(
     kernel=CLAIMS['C06']['kernel'] + '; NodeSorter scratch/caches under clear-guards; ElemForEach push/pop balance; install/uninstall of extension functions',
     text=CLAIMS['C06']['text'].replace(' History equivalence', ' The sorter copies nodes into its long-lived scratch vector only under a guard that clears it on every exit; what createSelectedAndSortedNodeList pushes is what releaseSelectedAndSortedNodeList pops; installExternalFunction maps the name to a clone of the new function also when the name was installed before. History equivalence'))
@@ -103,3 +103,5 @@ CLAIMS['C02'].update(
     text=CLAIMS['C02']['text'].replace(' Known finding:', ' A comparison with a node-set operand is true iff the comparison is true for some node (pair of nodes), each comparison on the string-value (number) of exactly one node per side, operands in order; a result tree fragment operand is compared by string-value (XSLT 11.1). Known finding:'))
 CLAIMS['C12'].update(
     text=CLAIMS['C12']['text'].replace(' The ordering predicates treat', ' The linear search keeps the nodes of one document together when the list holds nodes of several documents (two-witness postcondition + loop-free lemma over the search and predicate contracts). The ordering predicates treat'))
+CLAIMS['C20'].update(
+    text=CLAIMS['C20']['text'].replace(' The other container operations are assumed.', ' The in-place block of XalanVector::insert(pos, count, value) adds exactly count elements, never pushes beyond the capacity and fills slots inside the vector. The other container operations are assumed.'))
